@@ -32,7 +32,7 @@ pub fn registry() -> Vec<PropEntry> {
         PropEntry { meta: &c19::META, check: c19::check, replay: c19::replay, fuzz: None },
         PropEntry { meta: &c20::META, check: c20::check, replay: c20::replay, fuzz: Some(c20::fuzz_subs) },
         PropEntry { meta: &histprops::C01_META, check: |c| histprops::hist_check(c, &histprops::C01), replay: |_, _, v| histprops::hist_replay(&histprops::C01, v), fuzz: Some(|_| histprops::hist_fuzz_subs(&histprops::C01)) },
-        PropEntry { meta: &histprops::C02_META, check: |c| histprops::hist_check(c, &histprops::C02), replay: |_, _, v| histprops::hist_replay(&histprops::C02, v), fuzz: Some(|_| histprops::hist_fuzz_subs(&histprops::C02)) },
+        PropEntry { meta: &histprops::C02_META, check: |c| histprops::hist_check(c, &histprops::C02), replay: |_, sub, v| histprops::c02_replay(sub, v), fuzz: Some(|_| histprops::hist_fuzz_subs(&histprops::C02)) },
         PropEntry { meta: &histprops::C05_META, check: |c| histprops::hist_check(c, &histprops::C05), replay: |_, _, v| histprops::hist_replay(&histprops::C05, v), fuzz: Some(|_| histprops::hist_fuzz_subs(&histprops::C05)) },
         PropEntry { meta: &histprops::C06_META, check: |c| histprops::hist_check(c, &histprops::C06), replay: |_, _, v| histprops::hist_replay(&histprops::C06, v), fuzz: Some(|_| histprops::hist_fuzz_subs(&histprops::C06)) },
         PropEntry { meta: &histprops::C07_META, check: |c| histprops::hist_check(c, &histprops::C07), replay: |_, _, v| histprops::hist_replay(&histprops::C07, v), fuzz: Some(|_| histprops::hist_fuzz_subs(&histprops::C07)) },
